@@ -12,7 +12,7 @@ From Coquelicot Require Import Coquelicot.
 From PA Require Import model.Poly model.AbelPoly model.Pairs
   proofs.AbelPolyAlg proofs.AbelPolyInt proofs.PolyTop proofs.PolyPiecewise
   proofs.PairsClosed proofs.PairsProfile4 proofs.PairsStepGauss proofs.PairsGrid
-  gen.FormulasPairs gen.Profile6Inst.
+  gen.FormulasPairs.
 Import ListNotations.
 Open Scope R_scope.
 
@@ -57,24 +57,16 @@ Theorem C11_profile4_exact_refuted : exists x, 0 < x < 1 /\
 Proof. exact profile4_exact_refuted. Qed.
 Print Assumptions C11_profile4_exact_refuted.
 
-(* profile 6 (not a polynomial): instances at r = 1/10, 2/5, 7/10, 9/10 of
-   |2 int_0^Y' source(sqrt(r^2+y^2)) dy - projection(r)| <= 1e-9, the integral
-   truncated at radius 199/200 (the tail, < exp(-120), is not covered) *)
-Theorem C11_profile6_pair_instances_partial : P6_all.
-Proof. exact P6_all_ok. Qed.
-Print Assumptions C11_profile6_pair_instances_partial.
+(* profile 6 (not a polynomial): instances in proofs/C11Instances.v *)
 
 (* GaussianAnalytical: abel/func is the constant sigma sqrt(pi); the Gaussian
-   factorises along the line of sight; 2 int_0^6 exp(-t^2) dt encloses sqrt(pi)
-   to 1e-12 (identity of the improper integral with sqrt(pi): trusted) *)
+   factorises along the line of sight (the enclosure of the Gaussian integral is
+   in proofs/C11Instances.v; its identity with sqrt(pi) is trusted) *)
 Theorem C11_gaussian_pair_partial : forall A0 sigma Rm x r, sigma <> 0 ->
   gauss_abel A0 sigma r = sigma * sqrt PI * gauss_func A0 sigma r /\
   Abel (gauss_func A0 sigma) Rm x =
-    gauss_func A0 sigma x * (2 * RInt (fun y => exp (- y ^ 2 / sigma ^ 2)) 0 (sqrt (Rm * Rm - x * x))) /\
-  Rabs (2 * RInt (fun t => exp (- (t * t))) 0 6 - sqrt PI) <= 1 / 1000000000000.
-Proof.
-  intros; repeat split; [apply gaussian_ratio | apply gaussian_pair_partial; auto | apply gauss_integral_enclosure].
-Qed.
+    gauss_func A0 sigma x * (2 * RInt (fun y => exp (- y ^ 2 / sigma ^ 2)) 0 (sqrt (Rm * Rm - x * x))).
+Proof. intros; split; [apply gaussian_ratio | apply gaussian_pair_partial; auto]. Qed.
 Print Assumptions C11_gaussian_pair_partial.
 
 (* r grid, dr, symmetric layout (odd and even n), mirrored halves, masks *)
